@@ -464,6 +464,8 @@ static bool process_line(AsmState *state, const char *line, AsmResult *result) {
 
             state->in_function = true;
             state->fn_code_size = 0;
+            /* Labels are local to a function: start each function with an empty table */
+            state->label_count = 0;
 
             NvmFunctionEntry fn = {0};
             fn.name_idx = nvm_add_string(state->mod, name, (uint32_t)strlen(name));
